@@ -139,15 +139,41 @@ def run_job(job, workdir, vacuity=False, trace=True):
     cap = int(os.environ.get('VERIF_TIMEOUT_CAP', '0') or 0)
     rc, out, err, dt = _run(cmd, min(job.timeout, cap) if cap else job.timeout, outp)
     res['seconds'] += dt
+    partial = False
     if rc is None:
-        res['reason'] = 'cbmc timeout (%ds)' % job.timeout
-        return res
+        # all-properties mode timed out.  If the (truncated) log shows that a counterexample had already been found, ask again for just the first
+        # failing obligation (--stop-on-fail): a named obligation with a counterexample is a verdict, the rest stays unexamined
+        try:
+            seen_cex = (not vacuity) and 'instance is SATISFIABLE' in open(outp).read()
+        except OSError:
+            seen_cex = False
+        if not seen_cex:
+            res['reason'] = 'cbmc timeout (%ds)' % job.timeout
+            return res
+        cmd2 = cmd + ['--stop-on-fail'] + ([] if '--trace' in cmd else ['--trace'])
+        cmds.append(' '.join(cmd2))
+        rc, out, err, dt = _run(cmd2, min(job.timeout, 600), outp)
+        res['seconds'] += dt
+        if rc is None:
+            res['reason'] = 'cbmc timeout (%ds), also with --stop-on-fail' % job.timeout
+            return res
+        partial = True
     try:
         with open(outp) as f:
             doc = json.load(f)
     except Exception as e:
         res['reason'] = 'cbmc output unreadable (rc=%s): %s %s' % (rc, e, err[-300:])
         return res
+    if partial:
+        # --stop-on-fail prints the one failing property as a top-level entry {property, description, status, trace}
+        one = [e for e in doc if 'property' in e and 'status' in e]
+        for e in one:
+            steps = [st for st in e.get('trace', []) if st.get('sourceLocation')]
+            e.setdefault('sourceLocation', steps[-1]['sourceLocation'] if steps else {})
+            if str(e.get('status', '')).lower() in ('failed', 'failure'):
+                e['status'] = 'FAILURE'
+        doc = [e for e in doc if 'property' not in e] + [{'result': one}]
+        res['partial'] = 'all-properties run timed out after a counterexample had been found; verdict taken from --stop-on-fail (first failing obligation only)'
     props = None
     warnings = []
     for e in doc:
@@ -200,6 +226,12 @@ def run_job(job, workdir, vacuity=False, trace=True):
             res['reason'] = 'VACUOUS: harness end not reachable under the stated precondition'
         else:
             res['status'] = 'proved'
+        return res
+    if partial and res['failed']:
+        res['status'] = 'failed'
+        return res
+    if partial:
+        res['reason'] = 'cbmc timeout (%ds); --stop-on-fail gave no failing obligation' % job.timeout
         return res
     # presence scans
     if job.loops and job.nloops is not None:
